@@ -173,6 +173,8 @@ def gen_mutations(r, names, nops, wmode="mixed", collide=35, allow_new_from=True
     ops, existing = [], []
     for _ in range(nops):
         k = r.below(100)
+        if wmode == "real" and (62 <= k < 72 or 86 <= k < 93):
+            k = 30  # tuple calls add unweighted edges: not in a uniformly weighted history
         if k < 14:
             ops.append(("add_node", (r.pick(names), r.pick([None, r.below(50)]))))
         elif k < 20:
